@@ -8,6 +8,7 @@ conditions; between them lies a zone where no oracle speaks.
 """
 import collections
 import collections.abc as cabc
+import re
 import typing
 from typing import (Any, Annotated, Generic, Literal, NewType, Optional, Protocol,
                     TypeVar, Union, runtime_checkable)
@@ -239,6 +240,68 @@ SHALLOW_ORIGINS = {
 }
 
 
+# Further hint families that beartype supports mostly shallowly. Each entry: hint factory, object DSLs that conform at full
+# depth, a full-depth conformance predicate and a sufficient condition for "every correct checker rejects".
+class _ExoTD(typing.TypedDict):
+    x: int
+
+
+class _ExoNT(typing.NamedTuple):
+    x: int = 0
+
+
+def _exo_func(a: int) -> int:
+    return a
+
+
+_EXO695 = {}
+exec('type ExoAI = int | str\ntype ExoAlG[T] = list[T]\ntype ExoRec = list[ExoRec] | int', _EXO695)
+
+
+def _exo_rec_ok(x, depth=0):
+    if isinstance(x, int):
+        return True
+    return isinstance(x, list) and depth < 50 and all(_exo_rec_ok(i, depth + 1) for i in x)
+
+
+def _is_int(x):
+    return isinstance(x, int)
+
+
+EXOTICS = {
+    'TypedDict': {'hint': lambda: _ExoTD,
+                  'ok': [{'o': 'dict', 'i': [[{'o': 'str', 'v': 'x'}, {'o': 'int', 'v': 1}]]}],
+                  'conf': lambda x: isinstance(x, dict) and set(x) == {'x'} and _is_int(x['x']),
+                  'rej': lambda x: not isinstance(x, cabc.Mapping)},
+    'NamedTuple': {'hint': lambda: _ExoNT, 'ok': [{'o': 'exo_nt', 'v': 1}, {'o': 'exo_nt', 'v': 0}],
+                   'conf': lambda x: isinstance(x, _ExoNT) and _is_int(x.x), 'rej': lambda x: not isinstance(x, _ExoNT)},
+    'Callable': {'hint': lambda: typing.Callable[[int], int], 'ok': [{'o': 'exo_func'}],
+                 'conf': lambda x: x is _exo_func, 'rej': lambda x: not callable(x)},
+    'abcCallable': {'hint': lambda: cabc.Callable[..., typing.Any], 'ok': [{'o': 'exo_func'}, {'o': 'clsobj', 'c': 'A'}],
+                    'conf': callable, 'rej': lambda x: not callable(x)},
+    'Pattern': {'hint': lambda: re.Pattern[str], 'ok': [{'o': 'exo_pattern', 'v': 'a+'}],
+                'conf': lambda x: isinstance(x, re.Pattern) and isinstance(x.pattern, str), 'rej': lambda x: not isinstance(x, re.Pattern)},
+    'LiteralString': {'hint': lambda: typing.LiteralString, 'ok': [{'o': 'str', 'v': 'xyz'}, {'o': 'str', 'v': ''}],
+                      'conf': lambda x: isinstance(x, str), 'rej': lambda x: not isinstance(x, str)},
+    'Unpacked646': {'hint': lambda: tuple[int, *tuple[str, ...], bytes],
+                    'ok': [{'o': 'tuple', 'i': [{'o': 'int', 'v': 1}, {'o': 'str', 'v': 'a'}, {'o': 'bytes', 'v': 'b'}]},
+                           {'o': 'tuple', 'i': [{'o': 'int', 'v': 1}, {'o': 'bytes', 'v': 'b'}]}],
+                    'conf': lambda x: (isinstance(x, tuple) and len(x) >= 2 and _is_int(x[0]) and isinstance(x[-1], bytes)
+                                       and all(isinstance(i, str) for i in x[1:-1])),
+                    'rej': lambda x: not isinstance(x, tuple)},
+    'Alias695Union': {'hint': lambda: _EXO695['ExoAI'], 'ok': [{'o': 'str', 'v': 'a'}, {'o': 'int', 'v': 1}],
+                      'conf': lambda x: isinstance(x, (int, str)), 'rej': lambda x: not isinstance(x, (int, str))},
+    'Alias695Generic': {'hint': lambda: _EXO695['ExoAlG'][int],
+                        'ok': [{'o': 'list', 'i': [{'o': 'int', 'v': 1}, {'o': 'int', 'v': 2}]}, {'o': 'list', 'i': []}],
+                        'conf': lambda x: isinstance(x, list) and all(_is_int(i) for i in x),
+                        'rej': lambda x: not isinstance(x, list) or (len(x) > 0 and not any(_is_int(i) for i in x))},
+    'Alias695Rec': {'hint': lambda: _EXO695['ExoRec'],
+                    'ok': [{'o': 'int', 'v': 3}, {'o': 'list', 'i': [{'o': 'list', 'i': [{'o': 'int', 'v': 1}]}, {'o': 'int', 'v': 2}]},
+                           {'o': 'list', 'i': []}],
+                    'conf': _exo_rec_ok, 'rej': lambda x: not isinstance(x, (list, int))},
+}
+
+
 # ------------------------------------------------------------------ builders
 class Env:
     """Per-run environment: generated classes by slot name."""
@@ -366,6 +429,8 @@ def build_hint(h, env=None):
         return Annotated[(build_hint(h['a'][0], env),) + tuple(build_validator(v) for v in h['v'])]
     if k == 'proto':
         return PROTOS[h['n']]
+    if k == 'exo':
+        return EXOTICS[h['n']]['hint']()
     if k == 'gen':
         g = GENERICS[h['n']]
         args = tuple(build_hint(a, env) for a in h['a'])
@@ -436,6 +501,12 @@ def build_obj(o, env=None):
                 n = Node(n, o.get('v', 0) + j)     # the innermost (root) node first; values differ along the chain
             return n
         return c()
+    if k == 'exo_nt':
+        return _ExoNT(o.get('v', 0))
+    if k == 'exo_func':
+        return _exo_func
+    if k == 'exo_pattern':
+        return re.compile(o['v'])
     if k == 'clsobj':
         return env.cls(o['c'])
     if k == 'iterator':
@@ -567,6 +638,8 @@ def conforms(h, x, tower=False, env=None, _seen=None):
         return conforms(h['a'][0], x, tower, env) and all(eval_validator(v, x) for v in h['v'])
     if k == 'proto':
         return isinstance(x, PROTOS[h['n']])
+    if k == 'exo':
+        return bool(EXOTICS[h['n']]['conf'](x))
     if k == 'gen':
         g = GENERICS[h['n']]
         if not isinstance(x, g):
@@ -698,6 +771,8 @@ def must_reject(h, x, tower=False, env=None):
         return conforms(h['a'][0], x, tower, env) and not all(eval_validator(v, x) for v in h['v'])
     if k == 'proto':
         return not isinstance(x, PROTOS[h['n']])
+    if k == 'exo':
+        return bool(EXOTICS[h['n']]['rej'](x))
     if k == 'gen':
         g = GENERICS[h['n']]
         if not isinstance(x, g):
@@ -896,6 +971,8 @@ def gen_hint(rng, depth=3, hashable=False, families=None, leafy=0.3):
     if f == 'proto':
         if hashable:
             return _gen_leaf(rng, hashable)
+        if rng.random() < 0.5:
+            return {'k': 'exo', 'n': rng.choice(list(EXOTICS))}
         return {'k': 'proto', 'n': rng.choice(list(PROTOS))}
     if f == 'gen':
         if hashable:
@@ -1102,6 +1179,8 @@ def gen_conforming(rng, h, maxlen=4, env=None, depth=0):
             if all(eval_validator(v, x) for v in h['v']):
                 return o
         raise CannotGenerate(h)
+    if k == 'exo':
+        return rng.choice(EXOTICS[h['n']]['ok'])
     if k == 'proto':
         cands = [o for o in LEAF_OBJS if isinstance(build_obj(o), PROTOS[h['n']])]
         extra = []
